@@ -1,5 +1,7 @@
 pub mod c01;
 pub mod c03;
+pub mod c04;
+pub mod c05;
 pub mod c11;
 pub mod c12;
 pub mod c15;
